@@ -2,7 +2,9 @@
    Only statements; proofs are in theories/AssemblyA/Congruence.v over the hand model theories/AssemblyA/Dense.v
    (tied to /repo by the correspondence check of props/C04.py). *)
 From Coq Require Import List Arith Bool Permutation.
-From BV Require Import AssemblyA.Sums AssemblyA.Mat AssemblyA.Dense AssemblyA.Congruence.
+Import ListNotations.
+From BV Require Import AssemblyA.Sums AssemblyA.Mat AssemblyA.Dense AssemblyA.Sparse AssemblyA.Congruence
+     AssemblyA.L2Proofs AssemblyA.SparseCongruence AssemblyA.Equivariance AssemblyA.Refine.
 
 (* for every commutative ring, grid topology, supports, DOF maps, multipliers, colourings (any partition of the
    support into classes, any partition of the full grid) and local regular / singular kernel values:
@@ -50,3 +52,40 @@ Theorem C04_test_trial_independent :
               (dense ident G Lreg Lsing (full_space (sp_ns St) ct) (full_space nsr cr)) r (nsr * f + j)%nat).
 Proof. exact @congruence_test_side. Qed.
 Print Assumptions C04_test_trial_independent.
+
+(* the sparse assembler (identity, Laplace-Beltrami, ...) including the dof_transformation products:
+   sparse(S_test,S_trial) = X_test' (T_test' sparse(D_test,D_trial) T_trial) X_trial *)
+Theorem C04_sparse_congruence :
+  forall (A : Type) (R : CRing A) (nel : nat) (Lsp : nat -> nat -> nat -> A) (St Sr : space A) (ct cr : list (list nat))
+         (gt gr : nat) (Xt Xr : option mat),
+    meq (sparse_op nel Lsp St Sr gt gr Xt Xr)
+        (dof_transform gt gr Xt Xr
+           (congr (seq 0 (sp_ns St * nel)%nat) (seq 0 (sp_ns Sr * nel)%nat) (scatter (tmat nel St))
+                  (sparse_core nel Lsp (full_space (sp_ns St) ct) (full_space (sp_ns Sr) cr))
+                  (scatter (tmat nel Sr)))).
+Proof. exact @congruence_sparse. Qed.
+Print Assumptions C04_sparse_congruence.
+
+(* uniform refinement (model of Grid.refine): children 4e..4e+3 carry the parent's domain index; their vertices are
+   the parent's vertices and edge midpoints in the stated order; with h = 1/2 every child has the parent's
+   orientation and a quarter of its vector area, and the quarters add up.  PARTIAL: the statement
+   P' A_fine P = A_coarse up to quadrature error is analytic and not proved. *)
+Theorem C04_refine_nesting_partial :
+  (forall dom e k d, (k < 4)%nat -> nth (4 * e + k) (refine_domains dom) d = nth e dom d) /\
+  (forall nv els edges_of e k d v0 v1 v2 e0 e1 e2,
+      length els = length edges_of -> (e < length els)%nat ->
+      nth e els d = (v0, v1, v2) -> nth e edges_of d = (e0, e1, e2) -> (k < 4)%nat ->
+      nth (4 * e + k) (refine_elements nv els edges_of) d =
+      nth k [(v0, (e0 + nv)%nat, (e1 + nv)%nat); ((e0 + nv)%nat, v1, (e2 + nv)%nat);
+             ((e2 + nv)%nat, v2, (e1 + nv)%nat); ((e0 + nv)%nat, (e2 + nv)%nat, (e1 + nv)%nat)]%list d) /\
+  (forall (A : Type) (R : CRing A) (h : A) (v0 v1 v2 : pt3 A),
+      req (radd h h) rI ->
+      let m01 := midpoint h v0 v1 in let m20 := midpoint h v2 v0 in let m12 := midpoint h v1 v2 in
+      let q := scale3 (rmul h h) (normal_dir v0 v1 v2) in
+      eq3 (normal_dir v0 m01 m20) q /\ eq3 (normal_dir m01 v1 m12) q /\
+      eq3 (normal_dir m12 v2 m20) q /\ eq3 (normal_dir m01 m12 m20) q) /\
+  (forall (A : Type) (R : CRing A) (h x : A),
+      req (radd h h) rI ->
+      req (radd (radd (radd (rmul x (rmul h h)) (rmul x (rmul h h))) (rmul x (rmul h h))) (rmul x (rmul h h))) x).
+Proof. exact refine_nesting. Qed.
+Print Assumptions C04_refine_nesting_partial.
